@@ -60,7 +60,7 @@ func (u *decodeUnit) cycle(cycle int, app risc.Application) {
 		if !exists {
 			return
 		}
-		if int(pc)/4 >= len(app.Instructions) {
+		if pc < 0 || int(pc)/4 >= len(app.Instructions) {
 			return
 		}
 		runner := app.Instructions[pc/4]
